@@ -19,6 +19,7 @@ func init() {
 		Level: "exploration",
 		Rule: "generated RemoteAddr strings (IPv4, full/compressed/v4-mapped IPv6, zoned IPv6, every port class; malformed forms), Host values, header names/values and variable names; " +
 			"every token returned without an error must count the request as 1; unsupported variables include ones that merely contain a supported name; " +
+			"part conc (race build): one extractor object of each kind used by 8 goroutines for 8 different peers at once, every result must be the caller's own; " +
 			"oracle = net.SplitHostPort for well-formed addresses; a case is non-trivial when the address is well-formed or the variable is refused; distinct by (class,input)",
 		Assumptions: []string{"net.SplitHostPort is the reference for what 'the peer's IP address' of a host:port string is", "malformed RemoteAddr: only absence of panic is demanded"},
 		Parts: []Part{
